@@ -99,6 +99,24 @@ def do_replay(job):
     return {"violation": v}
 
 
+def do_replay_runs(job):
+    """Cross-run history: execute the listed run indices one after the other in THIS process (each regenerated from its
+    seed) and report the violation of the last one.  Used when a failure depends on state left behind by earlier runs."""
+    eng = load_engine(job["engine"])
+    prop, tier = job["prop"], job["tier"]
+    last = None
+    for idx in job["runs"]:
+        rng = random.Random(common.run_seed(job["verif_seed"], prop, idx))
+        cfg = eng.gen_cfg(rng, prop, tier)
+        cfg["_run"] = idx
+        res = common.execute(eng, prop, cfg, rng=rng)
+        last = res
+    v = None
+    if last is not None and last.violation is not None:
+        v = {"oracle": last.violation.oracle, "detail": last.violation.detail, "step": last.step, "ops": last.ops, "cfg": last.cfg}
+    return {"violation": v}
+
+
 def do_minimise(job):
     from simq import minimise
     rp = job["replay"]
@@ -135,6 +153,8 @@ def main():
             out = do_replay(job)
         elif mode == "minimise":
             out = do_minimise(job)
+        elif mode == "replay_runs":
+            out = do_replay_runs(job)
         else:
             raise common.HarnessError("bad mode")
         out["ok"] = True
